@@ -553,6 +553,96 @@ pub fn prune(rep: &mut Report, tier: Tier) {
             }
         }
     }
+    // predicates given in large units (coefficients ~1e4..1e5): the LP answers carry rounding noise of the size of the
+    // membership tolerance, a fat region must still never be pruned (C03)
+    for k in 0..(if tier == Tier::Quick { 150u64 } else { 3000 }) {
+        idx += 1;
+        if rep.skip(idx) {
+            continue;
+        }
+        let mut rng = Rng::new(rep.seed ^ (idx * 86028121 + k));
+        let d = 2;
+        let big_pred = |rng: &mut Rng| -> AffFunc {
+            let sg = |rng: &mut Rng| if rng.chance(1, 2) { 1.0 } else { -1.0 };
+            let a0 = sg(rng) * (10_000 + rng.below(90_000)) as f64;
+            let a1 = sg(rng) * (10_000 + rng.below(90_000)) as f64;
+            let b = sg(rng) * rng.below(800_000) as f64;
+            aff(&[vec![a0, a1]], &[b], 2)
+        };
+        let stump = |rng: &mut Rng, out: usize| -> AffTree<2> {
+            let mut t = AffTree::<2>::from_aff(big_pred(rng));
+            let c0 = term(rng, 2, out, false);
+            let c1 = term(rng, 2, out, false);
+            t.add_child_node(0, 0, c0).unwrap();
+            t.add_child_node(0, 1, c1).unwrap();
+            t
+        };
+        // f keeps the point (identity terminals) half of the time so that both predicates cut the same plane
+        let mut f = stump(&mut rng, 2);
+        if rng.chance(1, 2) {
+            for i in f.tree.terminal_indices().collect::<Vec<_>>() {
+                f.tree.node_value_mut(i).unwrap().aff = AffFunc::identity(2);
+            }
+        }
+        let g = stump(&mut rng, 1);
+        let xf = x_of(&f).unwrap();
+        let xg = x_of(&g).unwrap();
+        let descr = format!("large units | f: {} | g: {}", xf.descr(), xg.descr());
+        rep.evaluations += 1;
+        let res = guarded(|| {
+            let mut h = f.clone();
+            h.compose::<true, false>(&g);
+            let s = &f + &{ let mut g2 = g.clone(); g2.apply_func(&aff(&[vec![1.0], vec![1.0]], &[0.0, 0.0], 1)); g2 };
+            (h, s)
+        });
+        match res {
+            Err(p) => rep.viol(idx, "panic", format!("compose::<true,_> / + panicked: {p} | {descr}")),
+            Ok((h, s)) => {
+                let xh = x_of(&h).unwrap();
+                let mut u = f.clone();
+                u.compose::<false, false>(&g);
+                let xu = x_of(&u).unwrap();
+                let xs = x_of(&s).unwrap();
+                // a difference is tolerated only where the route region of the point contains no box of half-width 1/1000
+                let fat = |t: &XTree, x: &[Q]| -> bool {
+                    let rows: Vec<Row> = closed_route_region(t, x).into_iter().map(|r| {
+                        let l1 = r.a.iter().fold(Q::int(0), |acc, v| acc + if *v < Q::int(0) { Q::int(0) - *v } else { *v });
+                        Row { b: r.b - l1 * Q::new(1, 1000), ..r }
+                    }).collect();
+                    interior_nonempty(&rows, d)
+                };
+                for x in lattice(d) {
+                    if xh.eval(&x) != xu.eval(&x) && fat(&xu, &x) {
+                        rep.viol(idx, "function", format!("pruned composition differs from un-pruned at x={} (fat region) | {descr}", qs(&x)));
+                        break;
+                    }
+                }
+                let want = |x: &[Q]| -> Option<Vec<Q>> {
+                    let a = xf.eval(x)?;
+                    let b = xg.eval(x)?;
+                    Some(vec![a[0] + b[0], a[1] + b[0]])
+                };
+                for x in lattice(d) {
+                    // route regions of the sum: intersect the operands' regions
+                    if xs.eval(&x) != want(&x) {
+                        let mut rows = closed_route_region(&xf, &x);
+                        rows.extend(closed_route_region(&xg, &x));
+                        let rows: Vec<Row> = rows.into_iter().map(|r| {
+                            let l1 = r.a.iter().fold(Q::int(0), |acc, v| acc + if *v < Q::int(0) { Q::int(0) - *v } else { *v });
+                            Row { b: r.b - l1 * Q::new(1, 1000), ..r }
+                        }).collect();
+                        if interior_nonempty(&rows, d) {
+                            rep.viol(idx, "function", format!("f + g differs from the point-wise sum at x={} (fat region) | {descr}", qs(&x)));
+                            break;
+                        }
+                    }
+                }
+                if xh.nodes.len() < xu.nodes.len() {
+                    rep.nontrivial(&descr);
+                }
+            }
+        }
+    }
     // mirror_points (witness repair heuristic)
     for k in 0..(if tier == Tier::Quick { 2000 } else { 40000 }) {
         idx += 1;
